@@ -4138,6 +4138,7 @@ impl Context {
 
                 // Record current block for Switch instruction
                 let switch_bb = self.get_ctxdata().current_bb;
+                let entry_push_sum = self.begin_branch_state();
 
                 // Placeholder Switch
                 let _ = self.push_inst(Instruction::Switch {
@@ -4151,12 +4152,19 @@ impl Context {
                 let mut case_blocks: Vec<(i64, u64)> = Vec::new();
                 let mut case_results: Vec<VPtr> = Vec::new();
                 let mut all_states: Vec<StateSkeleton> = Vec::new();
+                // The state cells of the subtrees are laid out one after another
+                // (see `begin_branch_state`)
+                let mut arm_prefix = 0u64;
+                let mut arm_ends = vec![];
 
                 for (val, subtree) in cases {
                     self.add_new_basicblock();
                     let block_idx = self.get_ctxdata().current_bb as u64;
+                    self.begin_arm_state(entry_push_sum, arm_prefix);
                     let (result, states) =
                         self.compile_decision_tree(subtree, tuple_val, tuple_ty, elem_types);
+                    arm_prefix += states.iter().map(|s| s.total_size()).sum::<u64>();
+                    arm_ends.push(self.end_arm_state(entry_push_sum));
                     case_blocks.push((*val, block_idx));
                     case_results.push(result);
                     all_states.extend(states);
@@ -4166,14 +4174,18 @@ impl Context {
                 let default_block_idx = if let Some(default_tree) = default {
                     self.add_new_basicblock();
                     let block_idx = self.get_ctxdata().current_bb as u64;
+                    self.begin_arm_state(entry_push_sum, arm_prefix);
                     let (result, states) =
                         self.compile_decision_tree(default_tree, tuple_val, tuple_ty, elem_types);
+                    arm_prefix += states.iter().map(|s| s.total_size()).sum::<u64>();
+                    arm_ends.push(self.end_arm_state(entry_push_sum));
                     case_results.push(result);
                     all_states.extend(states);
                     Some(block_idx)
                 } else {
                     None
                 };
+                self.finish_branch_state(entry_push_sum, arm_prefix, &arm_ends);
 
                 // Generate merge block
                 self.add_new_basicblock();
